@@ -14,6 +14,7 @@ interpreter's parser produces (`Instr.WF`) and all contexts the assembler can bu
     behaves as the abstract stack `List (BitVec 16)`.
 -/
 import Emu8086.Lemmas.ExecBridge
+import Emu8086.Lemmas.Mem
 
 namespace Emu8086.Props.C05
 open Emu8086 Emu8086.Spec
@@ -82,5 +83,146 @@ theorem push_refines (cur : Nat) (m : Machine) (ctx : Ctx) (s : Op16) (hc : ctx.
   simp only [exec, execRef]
   refine bind_refines _ _ Place.toLoc _ _ (resolve16_eq m ctx hc s hs) fun ps => ?_
   simp [load16_eq, writeWord_eq_putWord, stackTop_eq]
+
+end Emu8086.Props.C05
+
+/-! ### PUSH x ; POP y and the abstract stack -/
+namespace Emu8086.Props.C05
+open Emu8086 Emu8086.Spec
+
+/-- the reference PUSH / POP of a VALUE (what `execRef` does for `.push` / `.pop`, see `execRef_push_reg`) -/
+def pushVal (m : Machine) (v : BitVec 16) : Machine :=
+  putWord { m with sp := m.sp - 2#16 } (phys m.ss (m.sp - 2#16)) v
+def popVal (m : Machine) : BitVec 16 × Machine := (wordAt m (phys m.ss m.sp), { m with sp := m.sp + 2#16 })
+
+theorem execRef_push_reg (cur : Nat) (m : Machine) (ctx : Ctx) (r : WordReg) :
+    execRef cur m ctx (.push (.reg r)) = next (pushVal m (get16 { m with sp := m.sp - 2#16 } r)) ctx := rfl
+theorem execRef_pop_reg (cur : Nat) (m : Machine) (ctx : Ctx) (r : WordReg) :
+    execRef cur m ctx (.pop (.reg r)) = next (set16 (popVal m).2 r (popVal m).1) ctx := rfl
+
+@[simp] theorem pushVal_ss (m : Machine) (v : BitVec 16) : (pushVal m v).ss = m.ss := rfl
+@[simp] theorem pushVal_sp (m : Machine) (v : BitVec 16) : (pushVal m v).sp = m.sp - 2#16 := rfl
+
+/-- PUSH x ; POP y leaves y = x and SP restored — for every SS:SP (0, 1, 0xFFFF, top of memory) -/
+theorem push_pop_roundtrip (m : Machine) (v : BitVec 16) :
+    (popVal (pushVal m v)).1 = v ∧ (popVal (pushVal m v)).2.sp = m.sp ∧ (popVal (pushVal m v)).2.ss = m.ss := by
+  refine ⟨?_, ?_, rfl⟩
+  · simp only [popVal, pushVal_ss, pushVal_sp]
+    exact wordAt_putWord_same _ _ _
+  · simp only [popVal, pushVal_sp]; bv_decide
+
+/-- registers other than SP are not touched by a push/pop pair of a value -/
+theorem push_pop_regs (m : Machine) (v : BitVec 16) :
+    let m' := (popVal (pushVal m v)).2
+    m'.ax = m.ax ∧ m'.bx = m.bx ∧ m'.cx = m.cx ∧ m'.dx = m.dx ∧ m'.bp = m.bp ∧ m'.si = m.si ∧ m'.di = m.di
+    ∧ m'.flag = m.flag ∧ m'.cs = m.cs ∧ m'.ds = m.ds ∧ m'.es = m.es := by
+  simp [popVal, pushVal, putWord]
+
+/-- PUSH SP stores the decremented SP (8086 behaviour) -/
+theorem push_sp_value (cur : Nat) (m : Machine) (ctx : Ctx) :
+    execRef cur m ctx (.push (.reg .SP)) = next (pushVal m (m.sp - 2#16)) ctx := rfl
+
+end Emu8086.Props.C05
+
+/-! ### refinement to an abstract stack: any sequence of pushes and pops -/
+namespace Emu8086.Props.C05
+open Emu8086 Emu8086.Spec
+
+inductive SOp where
+  | push (v : BitVec 16)
+  | pop
+  deriving Repr
+
+/-- the concrete machine -/
+def runC : Machine → List SOp → Machine × List (BitVec 16)
+  | m, [] => (m, [])
+  | m, .push v :: ops => runC (pushVal m v) ops
+  | m, .pop :: ops => let (v, m') := popVal m; let (mf, out) := runC m' ops; (mf, v :: out)
+
+/-- the abstract stack (top first); `none` when a pop meets an empty stack or the depth bound is exceeded -/
+def runA : List (BitVec 16) → List SOp → Option (List (BitVec 16) × List (BitVec 16))
+  | st, [] => some (st, [])
+  | st, .push v :: ops => if st.length < 32767 then runA (v :: st) ops else none
+  | [], .pop :: _ => none
+  | v :: st, .pop :: ops => (runA st ops).map fun (s, out) => (s, v :: out)
+
+/-- abstract element i is the word at SS:SP+2i -/
+def Inv (m : Machine) (st : List (BitVec 16)) : Prop :=
+  ∀ i (h : i < st.length), wordAt m (phys m.ss (m.sp + BitVec.ofNat 16 (2 * i))) = st[i]
+
+theorem cells_disjoint (ss sp : BitVec 16) (i : Nat) (hi : i < 32767) :
+    let a := phys ss (sp - 2#16)
+    let b := phys ss (sp - 2#16 + BitVec.ofNat 16 (2 * (i + 1)))
+    b % M20 ∉ wordCells a ∧ (b + 1) % M20 ∉ wordCells a := by
+  simp only [wordCells, phys, M20, List.mem_cons, List.not_mem_nil, or_false, not_or, BitVec.toNat_add, BitVec.toNat_sub,
+    BitVec.toNat_ofNat]
+  have h1 := ss.isLt; have h2 := sp.isLt
+  omega
+
+theorem inv_push (m : Machine) (st : List (BitVec 16)) (v : BitVec 16) (h : Inv m st) (hl : st.length < 32767) :
+    Inv (pushVal m v) (v :: st) := by
+  intro i hi
+  cases i with
+  | zero =>
+    simp only [pushVal_ss, pushVal_sp, Nat.mul_zero, List.getElem_cons_zero]
+    have : m.sp - 2#16 + BitVec.ofNat 16 0 = m.sp - 2#16 := by simp
+    rw [this]
+    exact wordAt_putWord_same _ _ _
+  | succ i =>
+    have hi' : i < st.length := by simpa using hi
+    simp only [pushVal_ss, pushVal_sp, List.getElem_cons_succ]
+    have hd := cells_disjoint m.ss m.sp i (by omega)
+    simp only at hd
+    have e : m.sp - 2#16 + BitVec.ofNat 16 (2 * (i + 1)) = m.sp + BitVec.ofNat 16 (2 * i) := by
+      apply BitVec.eq_of_toNat_eq
+      simp only [BitVec.toNat_add, BitVec.toNat_sub, BitVec.toNat_ofNat]
+      have := m.sp.isLt; omega
+    rw [pushVal, wordAt_putWord_other _ _ _ _ hd.1 hd.2]
+    rw [e]
+    exact h i hi'
+
+theorem inv_pop (m : Machine) (v : BitVec 16) (st : List (BitVec 16)) (h : Inv m (v :: st)) :
+    (popVal m).1 = v ∧ Inv (popVal m).2 st := by
+  constructor
+  · have := h 0 (by simp)
+    simpa [popVal] using this
+  · intro i hi
+    have := h (i + 1) (by simpa using hi)
+    simp only [popVal, List.getElem_cons_succ] at this ⊢
+    have e : BitVec.ofNat 16 (2 * (i + 1)) = 2#16 + BitVec.ofNat 16 (2 * i) := by
+      rw [show 2 * (i + 1) = 2 + 2 * i by omega, BitVec.ofNat_add]
+    rw [e, ← BitVec.add_assoc] at this
+    exact this
+
+/-- for every list of pushes and pops whose depth stays within the 64 KiB window, the concrete
+    machine started at ANY SS:SP returns exactly what the abstract stack returns -/
+theorem stack_refinement (ops : List SOp) : ∀ (m : Machine) (st : List (BitVec 16)), Inv m st →
+    ∀ st' out, runA st ops = some (st', out) → (runC m ops).2 = out ∧ Inv (runC m ops).1 st' := by
+  induction ops with
+  | nil => intro m st h st' out hr; simp [runA] at hr; obtain ⟨rfl, rfl⟩ := hr; exact ⟨rfl, h⟩
+  | cons op ops ih =>
+    intro m st h st' out hr
+    cases op with
+    | push v =>
+      simp only [runA] at hr
+      split at hr
+      · rename_i hl
+        exact ih (pushVal m v) (v :: st) (inv_push m st v h hl) st' out hr
+      · cases hr
+    | pop =>
+      cases st with
+      | nil => simp [runA] at hr
+      | cons v st =>
+        simp only [runA, Option.map_eq_some_iff] at hr
+        obtain ⟨⟨s2, o2⟩, hr2, heq⟩ := hr
+        simp only [Prod.mk.injEq] at heq
+        obtain ⟨rfl, rfl⟩ := heq
+        obtain ⟨hv, hinv⟩ := inv_pop m v st h
+        obtain ⟨ho, hi⟩ := ih (popVal m).2 st hinv s2 o2 hr2
+        simp only [runC]
+        exact ⟨by rw [ho, hv], hi⟩
+
+/-- non-vacuity: the empty abstract stack is related to every machine -/
+example (m : Machine) : Inv m [] := by intro i hi; simp at hi
 
 end Emu8086.Props.C05
